@@ -326,7 +326,8 @@ def _c04(o, driver, rng):
     n_cross = 40 if quick else 600
     k = 0
     while k < n_cross:
-        sc = scorr.gen_scenario(rng)
+        # half of the budget on scenarios outside every known data-flow finding class (where a difference is never masked)
+        sc = scorr.gen_clean_scenario(rng) if k % 2 else scorr.gen_scenario(rng)
         sc["sparse_persistent"] = False       # omitting a persistent output is a simulator-side contract breach (mosaik warns); see DESIGN.md
         if scorr.nonuniform_cutoff(sc, False):
             continue
@@ -343,7 +344,7 @@ def _c04(o, driver, rng):
     n_remote = 3 if quick else 40
     k = 0
     while k < n_remote:
-        sc = scorr.gen_scenario(rng)
+        sc = scorr.gen_clean_scenario(rng) if k % 2 else scorr.gen_scenario(rng)
         sc["sparse_persistent"] = False
         if scorr.nonuniform_cutoff(sc, False) or len(sc["sims"]) > 3:
             continue
